@@ -1,6 +1,7 @@
 package rules
 
 import (
+	"go/token"
 	"fmt"
 	"sort"
 	"strings"
@@ -351,3 +352,124 @@ func wantMatches(p *abs.Path, got abs.Value, w Want) string {
 }
 
 func cst(v int64) *int64 { return &v }
+
+
+// writesThrough reports where fn writes into storage reachable from its parameter (a slice): a store into an element, a
+// copy into it, an append that may reuse its spare capacity and is then written, or an in-place cipher call. Pieces of
+// the input kept in a slice of slices are followed. "" = the function only reads its input.
+func writesThrough(P *core.Program, fn *ssa.Function, in ssa.Value) string {
+	derived := map[ssa.Value]bool{in: true}
+	tainted := map[ssa.Value]bool{}
+	for changed := true; changed; {
+		changed = false
+		core.EachInstr(fn, func(x ssa.Instruction) {
+			switch v := x.(type) {
+			case *ssa.Slice:
+				if derived[v.X] && !derived[v] {
+					derived[v], changed = true, true
+				}
+			case *ssa.Call:
+				// append(in, ...) may return the input's own backing array
+				if b, ok := v.Call.Value.(*ssa.Builtin); ok && b.Name() == "append" && derived[v.Call.Args[0]] && !derived[v] {
+					derived[v], changed = true, true
+				}
+			case *ssa.Store:
+				if ia, ok := v.Addr.(*ssa.IndexAddr); ok && derived[v.Val] && !tainted[ia.X] {
+					tainted[ia.X], changed = true, true
+				}
+			case *ssa.UnOp:
+				if ia, ok := v.X.(*ssa.IndexAddr); ok && v.Op == token.MUL && tainted[ia.X] && !derived[v] {
+					derived[v], changed = true, true
+				}
+			case *ssa.Phi:
+				for _, e := range v.Edges {
+					if derived[e] && !derived[v] {
+						derived[v], changed = true, true
+					}
+				}
+			}
+		})
+	}
+	bad := ""
+	core.EachInstr(fn, func(x ssa.Instruction) {
+		switch v := x.(type) {
+		case *ssa.Call:
+			if b, ok := v.Call.Value.(*ssa.Builtin); ok && b.Name() == "copy" && derived[v.Call.Args[0]] {
+				bad = "copy into the input at " + P.InstrPos(v)
+			}
+			if v.Call.IsInvoke() && (v.Call.Method.Name() == "Decrypt" || v.Call.Method.Name() == "CryptBlocks" || v.Call.Method.Name() == "Encrypt") && len(v.Call.Args) > 0 && derived[v.Call.Args[0]] {
+				bad = "in-place cipher operation on the input at " + P.InstrPos(v)
+			}
+		case *ssa.Store:
+			if ia, ok := v.Addr.(*ssa.IndexAddr); ok && derived[ia.X] {
+				bad = "store into the input at " + P.InstrPos(v)
+			}
+		}
+	})
+	return bad
+}
+
+// ownedStorage: the byte slice v is (a view of) storage that outlives the call because it hangs off a pointer receiver
+// or a global - a buffer kept in the object - rather than memory allocated by this call. Returns a description or "".
+func ownedStorage(v ssa.Value, d int) string {
+	if d > 10 {
+		return ""
+	}
+	switch x := core.StripConv(v).(type) {
+	case *ssa.Slice:
+		return ownedStorage(x.X, d+1)
+	case *ssa.Phi:
+		for _, e := range x.Edges {
+			if w := ownedStorage(e, d+1); w != "" {
+				return w
+			}
+		}
+	case *ssa.UnOp:
+		if fa, ok := x.X.(*ssa.FieldAddr); ok && x.Op == token.MUL {
+			return "the field " + core.Path(fa)
+		}
+		if g, ok := x.X.(*ssa.Global); ok {
+			return "the global " + g.Name()
+		}
+	case *ssa.Call:
+		if b, ok := x.Call.Value.(*ssa.Builtin); ok && b.Name() == "append" {
+			return ownedStorage(x.Call.Args[0], d+1)
+		}
+		if f := x.Call.StaticCallee(); f != nil {
+			switch core.FullName(f) {
+			case "(*bytes.Buffer).Bytes":
+				// the buffer object: a local allocation is fresh, one loaded from a field is kept
+				switch b := core.StripConv(x.Call.Args[0]).(type) {
+				case *ssa.UnOp:
+					if fa, ok := b.X.(*ssa.FieldAddr); ok {
+						return "the buffer kept in " + core.Path(fa)
+					}
+				case *ssa.FieldAddr:
+					return "the buffer kept in " + core.Path(b)
+				}
+			}
+		}
+	}
+	return ""
+}
+
+// checkFreshResult: the bytes an encoder returns are allocated by that call; handing out a view of a buffer kept in the
+// object lets the next call overwrite what the previous caller still holds.
+func checkFreshResult(c *Ctx, rule, pkg, name string, resultIdx int) {
+	P, R := c.P, c.R
+	fn := P.Func(pkg, name)
+	if !R.Anchor(fn != nil, rule, pkg+"."+name) {
+		return
+	}
+	bad := ""
+	for _, r := range core.Returns(fn) {
+		if resultIdx < len(r.Results) {
+			if w := ownedStorage(core.ReturnOperand(r, resultIdx), 0); w != "" {
+				bad = w + " (return at " + P.InstrPos(r) + ")"
+			}
+		}
+	}
+	R.Check(bad == "", rule, pkg+"|"+name+"|result-is-freshly-allocated", P.Pos(fn.Pos()),
+		"the bytes returned are allocated by the call itself",
+		"the bytes returned are a view of "+bad+": the next call overwrites the body the previous caller still holds, so bodies encoded in a batch decode to the last frame", nil)
+}
